@@ -7,6 +7,8 @@ count, unchanged energy in the full orbital space and bit-identical inputs.
 """
 import warnings
 
+import math
+
 import numpy as np
 
 from vlib import ansatzlib, chem, chemref, fock, gen, refsim
@@ -153,6 +155,32 @@ def run_classical(case, ctx):
             t2 = float(np.real(np.einsum("ppqq", g2)))
             ok = abs(tr - n_el) < 1e-6 and (name == "MP2" or abs(t2 - n_el * (n_el - 1)) < 1e-5)
             ctx.check("traces", ok, f"{name}: traces {tr}, {t2} are not N, N(N-1) for N={n_el}", dict(wit, trace1=tr, trace2=t2))
+            # the same solver object on the same molecule after its orbitals were rotated (documented re-simulation workflow): the density
+            # matrices of the second run belong to the rotated orbitals and must reproduce the second energy with the rotated integrals
+            act_occ = [k for k in mol.active_occupied] if hasattr(mol, "active_occupied") else []
+            act_vir = [k for k in mol.active_virtual] if hasattr(mol, "active_virtual") else []
+            if name in ("CCSD", "FCI") and mol.spin == 0 and case["i"] % 2 == 0 and (len(act_occ) >= 2 or len(act_vir) >= 2):
+                i_, j_ = (act_occ[0], act_occ[1]) if (len(act_occ) >= 2 and (len(act_vir) < 2 or pr.random() < 0.5)) else (act_vir[0], act_vir[1])
+                ang = pr.uniform(0.3, 1.2)
+                rot = np.eye(np.asarray(mol.mo_coeff).shape[1])
+                rot[i_, i_] = rot[j_, j_] = math.cos(ang)
+                rot[i_, j_], rot[j_, i_] = -math.sin(ang), math.sin(ang)
+                C0 = np.array(mol.mo_coeff, copy=True)
+                try:
+                    with warnings.catch_warnings():
+                        warnings.simplefilter("ignore")
+                        mol.mo_coeff = C0 @ rot
+                        e2 = sol.simulate()
+                        h1, h2 = sol.get_rdm()
+                    if iterative_solver_converged(sol):
+                        e2_t = mol.energy_from_rdms(h1, h2)
+                        e2_o = own_energy_restricted(mol, h1, h2)
+                        ctx.check("resimulated_rdms", abs(e2 - e) < 1e-6 and abs(e2_t - e2) < 1e-6 and abs(e2_o - e2) < 1e-6,
+                                  f"{name}: after rotating two {'occupied' if i_ in act_occ else 'virtual'} orbitals and re-simulating on the same solver object, "
+                                  f"energy {e2:.9f} (before {e:.9f}), energy_from_rdms {e2_t:.9f}, own contraction {e2_o:.9f}",
+                                  dict(wit, rotated=[int(i_), int(j_)], angle=ang, energy_before=e, energy_after=e2, from_rdms=e2_t, own=e2_o))
+                finally:
+                    mol.mo_coeff = C0
         ctx.tab("solver_x_reference", f"{name}|{'UHF' if mol.uhf else ('ROHF' if mol.spin else 'RHF')}|{'frozen' if mol.frozen_mos else 'full'}")
     if n_el >= 2 and mol.n_active_sos // 2 > max(na, nb):
         ctx.nontrivial(("classical", repr(spec)))
